@@ -295,7 +295,8 @@ package rapid
 //@   requires execCtx != nil && s != nil
 //@   ensures [flag-brackets-the-shutdown] delta(ShuttingDownSet) == 1 && delta(ShuttingDownCleared) == 1 && first(ShuttingDownSet) < first(FirstFatalForgotten) && delta(FirstFatalForgotten) == 1 && first(FirstFatalForgotten) < first(AgentCount) && last(ClearExited) < first(ShuttingDownCleared)
 //@   ensures [no-extensions-kill-at-once] delta(AgentCount) == 1 && (lastret(AgentCount) == 0 ==> delta(Terminate) == 0 && delta(ShutdownRuntimeStep) == 0 && delta(ShutdownAgentsStep) == 0 && delta(ExitedLookup) == 1 && delta(KillAny) == delta(ExitedLookupFound) && (delta(KillAny) == 1 ==> lastarg(KillAny, 2).Name == lastarg(ExitedLookup, 1) && lastarg(KillAny, 2).Domain == RuntimeDomain))
-//@   ensures [graceful-otherwise] lastret(AgentCount) != 0 ==> delta(ShutdownRuntimeStep) == 1 && delta(ShutdownAgentsStep) == 1 && first(ShutdownRuntimeStep) < first(ShutdownAgentsStep) && lastarg(ShutdownAgentsStep, 4) == reason
+//@   ensures [graceful-otherwise] lastret(AgentCount) != 0 ==> delta(ShutdownRuntimeStep) == 1 && delta(ShutdownAgentsStep) == 1 && first(ShutdownRuntimeStep) < first(ShutdownAgentsStep) && lastarg(ShutdownAgentsStep, reason) == reason
+//@   ensures [both-deadlines-count-from-the-same-instant] lastret(AgentCount) != 0 ==> timeBase(lastarg(ShutdownRuntimeStep, deadline)) == timeBase(lastarg(ShutdownAgentsStep, deadline))
 //@   ensures [waits-for-every-process-before-returning] delta(ClearExited) == 1 && (delta(KillAny) >= 1 ==> last(KillAny) < first(ClearExited)) && (delta(ShutdownAgentsStep) == 1 ==> last(ShutdownAgentsStep) < first(ClearExited))
 
 // the runtime's share of the shutdown budget
